@@ -7,13 +7,13 @@ NevraOk(r) ==
     /\ r.text = FormatNevra(r.x)
     /\ r.norm = NormalNevra(r.x)
     /\ NormalHasEpoch(SubSeq(r.norm, Len(r.x.n) + 2, Len(r.norm)))
-    /\ (RealNevra(r.x) => (r.parsed = r.x /\ r.reparsed_eq = TRUE))
+    /\ (RealNevra(r.x) => (r.parsed = r.x /\ r.reparsed_eq = TRUE /\ ("norm_eq" \in DOMAIN r => r.norm_eq = TRUE)))
 
 EvrOk(r) ==
     /\ r.text = FormatEvr(r.x)
     /\ r.norm = NormalEvr(r.x)
     /\ NormalHasEpoch(r.norm)
-    /\ (RealEvr(r.x) => (r.parsed = r.x /\ r.reparsed_eq = TRUE))
+    /\ (RealEvr(r.x) => (r.parsed = r.x /\ r.reparsed_eq = TRUE /\ ("norm_eq" \in DOMAIN r => r.norm_eq = TRUE)))
 
 CtOk(r) == r.text \in CompressionNames /\ r.parse_ok = TRUE /\ r.same = TRUE
 
